@@ -459,6 +459,14 @@ func (x *Exec) binop(op token.Token, l, r Val, st *State, node ast.Node) Val {
 		switch op {
 		case token.ADD:
 			return Val{T: app("gs.cat", l.T, r.T), Ty: ty}
+		case token.LSS:
+			return cmp(app("gs.lt", l.T, r.T))
+		case token.GTR:
+			return cmp(app("gs.lt", r.T, l.T))
+		case token.LEQ:
+			return cmp(not(app("gs.lt", r.T, l.T)))
+		case token.GEQ:
+			return cmp(not(app("gs.lt", l.T, r.T)))
 		case token.EQL:
 			return cmp(eq(l.T, r.T))
 		case token.NEQ:
@@ -555,7 +563,9 @@ func (x *Exec) evalIndex(n *ast.IndexExpr, st *State, env *Env) Val {
 			k = x.materialize(k, u.Key())
 		}
 		ms := x.c.mapSort(u)
-		return Val{T: app("select", x.c.accessor("|"+ms+".val|", base.T), k.T), Ty: u.Elem()}
+		mv := Val{T: x.c.define("mapval", x.c.sortOf(u.Elem()), app("select", x.c.accessor("|"+ms+".val|", base.T), k.T)), Ty: u.Elem()}
+		x.assumeWFAtom(st, mv)
+		return mv
 	case *types.Basic:
 		if u.Info()&types.IsString != 0 {
 			idx := x.defaultType(x.eval(n.Index, st, env))
